@@ -102,8 +102,29 @@ def main(argv=None):
         traceback.print_exc()
         print("engine failure: internal error in the analysis (no verdict)")
         return 2
-    wall = time.time() - t0
     known = load_known()
+    # thorough tier: the committed seeded changes must still be reported (sa/selftest.py)
+    if tier == "thorough" and not os.environ.get("VERIF_NO_SELFTEST"):
+        try:
+            from . import selftest
+            kk = set(k["key"] for k in known.get("findings", []) if k.get("property") == pid and k.get("status") == "known")
+            base_fail = set(o["key"] for o in rep.obs if not o["ok"])
+            st = selftest.run(pid, mod, kk, base_fail)
+            rep.extra["selftest"] = st
+            validated = {}
+            try:
+                with open(os.path.join(VERIF, "seeded", "VALIDATED.json")) as fh:
+                    validated = json.load(fh)
+            except (OSError, ValueError):
+                pass
+            miss = [x["seed"] for x in st if x["applied"] and not x["flagged"] and "note" not in x]
+            if miss and validated.get("tree_key") == rep.tree_key.split("@")[0] and validated.get("repo") == extract.REPO:
+                print("engine failure: seeded change(s) %s apply to this (validated) tree but are no longer reported: the engine is blind, no verdict" % miss)
+                return 2
+        except extract.EngineError as e:
+            print("engine failure during self-test: %s" % e)
+            return 2
+    wall = time.time() - t0
     if a.suggest:
         for o in rep.obs:
             if not o["ok"]:
